@@ -10,6 +10,7 @@ pub mod rawbam;
 pub mod reuse;
 pub mod samtext;
 pub mod spec;
+pub mod wseq;
 
 pub use model::{GHeader, GLine, GRec, GVal};
 pub use spec::Expect;
